@@ -3306,3 +3306,94 @@ func ruleProviderFuncResolvedByUses(c *Ctx, rule string) {
 	}
 	c.floor(rule, "stores to WireProviderFunc.Func", n, 1)
 }
+
+// ruleSyncJoinsItsInputs: a provider that is not Async joins the first pool that provides all its inputs, unconditionally.
+// Field reads of an expanded struct are such providers and never emit a wait of their own (ruleFieldAccessSync): they are
+// ordered after the struct's producer only because they are queued behind it in its pool. Any further test on the sync
+// edge (pool size, what the pool ends with, load balancing) can move a field read to another lane, where nothing orders it.
+func ruleSyncJoinsItsInputs(c *Ctx, rule string) {
+	L := c.L
+	fn := genFn(c, rule, "(*Graph).findOptimalPool")
+	if fn == nil {
+		return
+	}
+	isOwnAsync := func(v ssa.Value) bool {
+		s := newSym(L, map[string]bool{})
+		s.maxD = 2
+		for _, t := range s.eval(v) {
+			if strings.Contains(t, "field:internal/kessoku.ProviderSpec.IsAsync(field:internal/kessoku.node.providerSpec(param:"+fn.Params[1].Name()+")") {
+				return true
+			}
+		}
+		return false
+	}
+	ok, nTests := false, 0
+	detail := []string{}
+	for _, g := range family(L, fn) {
+		if g.Parent() != nil {
+			continue
+		}
+		for _, b := range g.Blocks {
+			if len(b.Instrs) == 0 {
+				continue
+			}
+			iff, isIf := b.Instrs[len(b.Instrs)-1].(*ssa.If)
+			if !isIf || g != fn {
+				continue
+			}
+			cond, neg := iff.Cond, false
+			if u, isU := cond.(*ssa.UnOp); isU && u.Op == token.NOT {
+				cond, neg = u.X, true
+			}
+			if !isOwnAsync(cond) {
+				continue
+			}
+			if _, isLoad := cond.(*ssa.UnOp); !isLoad {
+				continue // a compound condition: not the bare flag
+			}
+			nTests++
+			syncEdge := b.Succs[1]
+			if neg {
+				syncEdge = b.Succs[0]
+			}
+			// the sync edge returns at once ...
+			var ret *ssa.Return
+			bare := true
+			for _, in := range syncEdge.Instrs {
+				switch x := in.(type) {
+				case *ssa.Return:
+					ret = x
+				case *ssa.IndexAddr, *ssa.UnOp, *ssa.DebugRef:
+				default:
+					bare = false
+				}
+			}
+			if ret == nil || !bare || len(ret.Results) != 1 || len(syncEdge.Preds) != 1 {
+				continue
+			}
+			// ... the candidate under examination: an element of a local []int list, loaded in the test's block or in the
+			// returning block (nothing else was asked about this candidate before)
+			ld, isLd := ret.Results[0].(*ssa.UnOp)
+			if !isLd || ld.Op != token.MUL {
+				detail = append(detail, fmt.Sprintf("block %d returns %s", syncEdge.Index, describe(ret.Results[0])))
+				continue
+			}
+			ia, isIA := ld.X.(*ssa.IndexAddr)
+			if !isIA || !strings.HasSuffix(ia.X.Type().String(), "[]int") {
+				continue
+			}
+			if _, isParam := resolve(ia.X).(*ssa.Parameter); isParam {
+				continue
+			}
+			if ld.Block() != b && ld.Block() != syncEdge {
+				detail = append(detail, fmt.Sprintf("candidate loaded in block %d, tested in block %d", ld.Block().Index, b.Index))
+				continue
+			}
+			ok = true
+			detail = append(detail, fmt.Sprintf("IsAsync test in block %d, sync edge -> block %d returns the candidate %s", b.Index, syncEdge.Index, describe(ret.Results[0])))
+		}
+	}
+	c.check(ok, rule, "findOptimalPool:sync-provider-joins-first-pool-with-all-inputs", L.pos(fn.Pos()),
+		"a provider that is not Async joins the first candidate pool providing all its inputs without any further test (struct field reads never wait: they are ordered only by standing behind the struct's producer in its pool)",
+		fmt.Sprintf("%d tests of the scheduled provider's IsAsync flag; %s", nTests, strings.Join(detail, "; ")))
+}
